@@ -58,6 +58,9 @@ func startDoc(r *rand.Rand) M {
 		doc["n"] = nil
 		doc["a/b"] = "slash"
 		doc["m~n"] = "tilde"
+		// members whose names are spellings of one number: different members of an object,
+		// one element of a list
+		doc["num"] = M{"1": "v", "01": M{}, "+1": M{"k": 1}, "0": []interface{}{M{"e": 1}}}
 	}
 	return doc
 }
@@ -72,7 +75,10 @@ func randJSONValue(r *rand.Rand) interface{} {
 }
 
 func ietfOp(r *rand.Rand) M {
-	switch r.Intn(9) {
+	switch r.Intn(10) {
+	case 9: // from one number-like member into its sibling (no child of the source), or into a real child
+		return M{"op": pick(r, []string{"copy", "move"}), "from": pick(r, []string{"/num/1", "/num/01", "/num/+1", "/num/0", "/num/0/0", "/num/0/+0"}),
+			"path": pick(r, []string{"/num/01/x", "/num/+1/x", "/num/1/x", "/num/00/x", "/num/0/0/x", "/num/0/00/x", "/num/0/-", "/num/00"})}
 	case 0, 1:
 		return M{"op": "add", "path": pick(r, ptrPool), "value": randJSONValue(r)}
 	case 2:
